@@ -42,7 +42,7 @@ func conforms(e0 map[string]*m.Type, e1 map[string]*m.Val) bool {
 }
 
 func genEnvCase(t *rapid.T) *EnvCase {
-	o := gen.ProgOpt{Fuel: 3, Partial: false, Sugar: false, Maybe: true, Times: true, Harness: true, HostEnv: true}
+	o := gen.ProgOpt{Fuel: 3, Partial: false, Sugar: rapid.Bool().Draw(t, "sugar"), Maybe: true, Times: true, Harness: true, HostEnv: true}
 	g := gen.NewG(t, o)
 	want := g.AnyResultType()
 	e := g.ExprTraced(want)
@@ -70,9 +70,9 @@ func genEnvCase(t *rapid.T) *EnvCase {
 			hostOK = false
 		}
 	}
-	forms := []string{"raw"}
+	forms := []string{"raw", "rawshared"}
 	if hostOK {
-		forms = []string{"raw", "struct", "struct", "map", "dyn", "ptr"}
+		forms = []string{"raw", "rawshared", "struct", "struct", "map", "dyn", "ptr"}
 	}
 	c.Form0 = forms[rapid.IntRange(0, len(forms)-1).Draw(t, "form0")]
 	// ---- derive E1
@@ -142,6 +142,9 @@ func genEnvCase(t *rapid.T) *EnvCase {
 		forms1 = []string{"raw", "struct", "struct", "map", "maprows", "maprows", "dyn", "ptr", c.Form0, c.Form0, c.Form0, c.Form0, c.Form0, c.Form0}
 	}
 	c.Form1 = forms1[rapid.IntRange(0, len(forms1)-1).Draw(t, "form1")]
+	if c.Form1 == "rawshared" {
+		c.Form1 = "raw" // sharing is a matter of the compile-time types.Env only
+	}
 	c.Warm = rapid.Bool().Draw(t, "warm")
 	if _, taken := c.Vals[mixedName]; !taken && hostOK && host1 && rapid.IntRange(0, 7).Draw(t, "mixed") == 0 {
 		if _, mapOK := run.EnvMap(c.Vals1); mapOK {
@@ -205,6 +208,9 @@ func envObject(en *run.Engine, form string, vals map[string]*m.Val, types bool) 
 		env := map[string]*m.Type{}
 		for n, v := range vals {
 			env[n] = v.T
+		}
+		if form == "rawshared" {
+			return run.TypeEnvShared(env), true
 		}
 		return run.TypeEnv(env), true
 	}
@@ -370,7 +376,7 @@ func valsSummary(vals map[string]*m.Val) string {
 var c07 = Register(&Prop[EnvCase]{ID: "C07", Name: "env-check", Gen: genEnvCase, Check: checkC07})
 
 func TestC07(t *testing.T) {
-	R.Rule = "pairs (compile-time environment E0, run-time environment E1): E0 in one of five physical forms (the run-time environment also as a map whose lists of objects are []interface{} rows of Go struct types declaring the fields in different orders) (raw types.Env, Go struct built by reflection with yae tags, map[string]interface{}, Go struct of interface{} fields, Go struct of untagged pointer fields — the last two give one Go type to environments of different yae types), E1 derived from a conforming environment by 0-3 mutations (drop a name, retype a binding at a drawn depth, add extra names, permute object field order at every depth, make a binding optional, other values of the same types, or an unused binding arriving as a Go map whose entries hold lists of different element types) and given in a drawn physical form; the Callable is invoked with E1 three times (first, the same object again, a fresh object of the same contents), half of the time after an accepted call with the compile-time sample, and every invocation is judged alike; programs over E0's names with effect-recording wrappers; oracle: model predicate conforms(E0,E1); conforming => accepted and result = reference evaluator on E1; non-conforming => error returned, no panic, empty effect log; non-trivial = at least one mutation or a change of physical form"
+	R.Rule = "pairs (compile-time environment E0, run-time environment E1): E0 in one of six physical forms (raw types.Env also with identical composite sub-terms shared as one type object) (the run-time environment also as a map whose lists of objects are []interface{} rows of Go struct types declaring the fields in different orders) (raw types.Env, Go struct built by reflection with yae tags, map[string]interface{}, Go struct of interface{} fields, Go struct of untagged pointer fields — the last two give one Go type to environments of different yae types), E1 derived from a conforming environment by 0-3 mutations (drop a name, retype a binding at a drawn depth, add extra names, permute object field order at every depth, make a binding optional, other values of the same types, or an unused binding arriving as a Go map whose entries hold lists of different element types) and given in a drawn physical form; the Callable is invoked with E1 three times (first, the same object again, a fresh object of the same contents), half of the time after an accepted call with the compile-time sample, and every invocation is judged alike; programs over E0's names with effect-recording wrappers; oracle: model predicate conforms(E0,E1); conforming => accepted and result = reference evaluator on E1; non-conforming => error returned, no panic, empty effect log; non-trivial = at least one mutation or a change of physical form"
 	R.Assume = []string{"model.Equal is structural type equality (fields by name)", "host forms built by run/host.go denote the model values (this is C15's subject)"}
 	reportKnown(t, "C07")
 	runRegress(t, "C07")
